@@ -48,6 +48,11 @@ pub enum Op {
     /// peer j closes in an orderly way (end-of-stream); like on TCP, writes towards it still
     /// succeed for a while, so only the socket's own bookkeeping can make a later send fail
     Close(usize),
+    /// peer j (raw, announced identity) goes away and, BEFORE the socket has had a chance to
+    /// observe that, a new connection announcing the same identity completes its handshake (a
+    /// worker that restarts under its fixed identity). From then on that identity is the new
+    /// connection. Only done when everything the old connection wrote has been received.
+    Rejoin(usize),
 }
 
 #[derive(Debug, Clone, Serialize, Deserialize, PartialEq, Eq, Hash)]
@@ -81,6 +86,7 @@ pub fn router_outcome(c: &RouterCase) -> Outcome {
     if c.ops.iter().any(|op| matches!(op, Op::Send(Target::Unknown | Target::Oversized | Target::Empty, _))) {
         o.class("absent-target");
     }
+    let mut rejoined = false;
     let c2 = c.clone();
     let (r, panics) = capture_panics(|| {
         run_sim(async move {
@@ -108,7 +114,7 @@ pub fn router_outcome(c: &RouterCase) -> Outcome {
                         }
                         other => {
                             fail!(f, "C09/setup", "peer {}: {:?}", j, other);
-                            return f;
+                            return (f, 0);
                         }
                     }
                     peers.push(PeerRt::Lib { sock: s, to_router: ab, from_router: ba });
@@ -127,7 +133,7 @@ pub fn router_outcome(c: &RouterCase) -> Outcome {
                         }
                         other => {
                             fail!(f, "C09/setup", "peer {}: {:?}", j, other);
-                            return f;
+                            return (f, 0);
                         }
                     }
                     peers.push(PeerRt::Raw(l));
@@ -137,7 +143,7 @@ pub fn router_outcome(c: &RouterCase) -> Outcome {
                 for j in 0..i {
                     if ids[i] == ids[j] {
                         fail!(f, "C09/identity/not-unique", "peers {} and {} share identity {}", j, i, refcodec::brief(&ids[i]));
-                        return f;
+                        return (f, 0);
                     }
                 }
             }
@@ -147,6 +153,9 @@ pub fn router_outcome(c: &RouterCase) -> Outcome {
             let mut gone: Vec<bool> = vec![false; peers.len()];
             let mut observed_gone: Vec<bool> = vec![false; peers.len()];
             let mut seq = 0usize;
+            // connections that have been replaced by a newer one under the same identity
+            let mut former: Vec<(usize, Link)> = vec![];
+            let mut rejoins = 0usize;
             let tap_len = |p: &PeerRt| match p {
                 PeerRt::Raw(l) => l.from_lib.tap_len(),
                 PeerRt::Lib { from_router, .. } => from_router.tap_len(),
@@ -224,6 +233,39 @@ pub fn router_outcome(c: &RouterCase) -> Outcome {
                             }
                         }
                     }
+                    Op::Rejoin(j) => {
+                        let j = *j % peers.len();
+                        let Some(idh) = c.peers[j].identity.as_ref() else { continue };
+                        let PeerRt::Raw(l) = &peers[j] else { continue };
+                        if next[j] != sent[j].len() {
+                            continue;
+                        }
+                        let old = l.clone();
+                        if !gone[j] {
+                            old.to_lib.deliver_all();
+                            old.to_lib.end_after_all(ReadEnd::Eof);
+                        }
+                        let id = refcodec::unhex(idh);
+                        let nl = sim.link();
+                        nl.raw_handshake(&c.peers[j].socket_type, Some(&id));
+                        let a = sim.attach(router, &nl);
+                        match sim.run(a).await {
+                            Ok(Some(Out::Attach(Ok(got)))) => {
+                                if got != id {
+                                    fail!(f, "C09/identity/announced-identity-not-used", "returning peer {} announced {} but attach returned {}", j, refcodec::brief(&id), refcodec::brief(&got));
+                                }
+                            }
+                            other => {
+                                fail!(f, "C09/identity/returning-identity-refused", "op {}: connection {} had gone (end {}observed) and a new connection announcing its identity was not admitted: {:?}", opi, j, if observed_gone[j] { "" } else { "not yet " }, other);
+                                return (f, rejoins);
+                            }
+                        }
+                        former.push((j, old));
+                        peers[j] = PeerRt::Raw(nl);
+                        gone[j] = false;
+                        observed_gone[j] = false;
+                        rejoins += 1;
+                    }
                     Op::RecvAll | Op::RecvOne => {
                         let max = if matches!(op, Op::RecvAll) { 64 } else { 1 };
                         for _ in 0..max {
@@ -274,7 +316,7 @@ pub fn router_outcome(c: &RouterCase) -> Outcome {
                                 }
                                 other => {
                                     fail!(f, "C09/spin", "{:?}", other);
-                                    return f;
+                                    return (f, rejoins);
                                 }
                             }
                         }
@@ -307,8 +349,12 @@ pub fn router_outcome(c: &RouterCase) -> Outcome {
                             m.push(b"p".to_vec());
                         }
                         let before: Vec<usize> = peers.iter().map(tap_len).collect();
+                        let former_before: Vec<usize> = former.iter().map(|(_, l)| l.from_lib.tap_len()).collect();
                         let a = sim.send(router, &m);
                         let res = sim.run(a).await;
+                        if let Some((k, (j, _))) = former.iter().enumerate().find(|(k, (_, l))| l.from_lib.tap_len() != former_before[*k]) {
+                            fail!(f, "C09/outbound/delivered-to-replaced-connection", "op {}: send to {:?} wrote to the connection that identity of peer {} had BEFORE it went away and came back (former connection #{}), result {:?}", opi, target, j, k, res.as_ref().map(|r| r.as_ref().map(|o| o.err_text().map(|s| s.to_string()))));
+                        }
                         let grew: Vec<usize> = peers.iter().enumerate().filter(|(i, p)| tap_len(p) != before[*i]).map(|x| x.0).collect();
                         match res {
                             Ok(Some(Out::Send(Ok(())))) => match tj {
@@ -344,18 +390,22 @@ pub fn router_outcome(c: &RouterCase) -> Outcome {
                             }
                             other => {
                                 fail!(f, "C09/outbound/send-hangs", "op {}: {:?}", opi, other);
-                                return f;
+                                return (f, rejoins);
                             }
                         }
                         // library peers: drain what they received so their pipes stay readable
                     }
                 }
             }
-            f
+            (f, rejoins)
         })
     });
-    if let Some(f) = r {
+    if let Some((f, rejoins)) = r {
         o.failures = f;
+        rejoined = rejoins > 0;
+    }
+    if rejoined {
+        o.class("identity-reused-by-a-returning-peer");
     }
     for p in panics {
         o.fail(format!("C09/panic/{}", panic_sig(&p)), p);
@@ -400,6 +450,18 @@ pub fn gen_router(s: &mut Src<'_>) -> RouterCase {
     let k = s.range(4, 30);
     let mut ops = vec![];
     for _ in 0..k {
+        if s.chance(1, 12) {
+            // a peer with a fixed identity restarts: its pending output is received first, then
+            // it is replaced; usually something is routed to it / heard from it right after
+            let j = s.below(n);
+            ops.push(Op::Deliver(j, 0));
+            ops.push(Op::RecvAll);
+            ops.push(Op::Rejoin(j));
+            if s.bool() {
+                ops.push(Op::Send(Target::Peer(j), gen_lens(s)));
+            }
+            continue;
+        }
         let op = match s.weighted(&[5, 4, 3, 2, 5, 1, 1]) {
             0 => Op::PeerSend(s.below(n), gen_lens(s)),
             1 => Op::Deliver(s.below(n), s.pick(&[0usize, 0, 1, 3, 10, 100])),
@@ -463,6 +525,20 @@ pub fn run(ctx: &Ctx) -> (Report, PropertyMeta) {
                     Op::RecvAll,
                     Op::Send(Target::Peer(0), vec![1]),
                     Op::Send(Target::Peer(1), vec![2]),
+                    // peer 2 (reset, observed) comes back under its identity
+                    Op::Rejoin(2),
+                    Op::Send(Target::Peer(2), vec![4]),
+                    Op::PeerSend(2, vec![2]),
+                    Op::Deliver(2, 0),
+                    Op::RecvAll,
+                    // peer 1 restarts while the socket is idle: its departure is not observed
+                    Op::Rejoin(1),
+                    Op::Send(Target::Peer(1), vec![6]),
+                    Op::PeerSend(1, vec![1]),
+                    Op::Deliver(1, 0),
+                    Op::RecvAll,
+                    Op::Send(Target::Peer(1), vec![0]),
+                    Op::Send(Target::Peer(2), vec![1]),
                 ];
                 cases.push(RouterCase { peers, ops });
             }
@@ -484,11 +560,12 @@ pub fn run(ctx: &Ctx) -> (Report, PropertyMeta) {
     health(&mut report, "absent-target", total, 100);
     health_abs(&mut report, "departed-target", 300);
     health_abs(&mut report, "several-departures", 100);
+    health_abs(&mut report, "identity-reused-by-a-returning-peer", 300);
     health_abs(&mut report, "library-peer-with-identity-option", 300);
 
     let meta = PropertyMeta {
         level: "exploration",
-        rule: "proptest histories on a real ROUTER socket with 1..5 peers (raw DEALER/REQ/ROUTER with announced 1..255-byte or auto-assigned identities, or library DEALER/REQ sockets using SocketOptions::peer_identity over a pipe pair): peers write tagged messages, bytes are delivered in generated portions, the application interleaves recv with send([target, ...]) to every live identity, a never-seen identity, a 256-byte frame, an empty frame and the identity of a peer that was reset or closed in an orderly way (like on TCP, writes towards a closed peer still succeed, so only the socket's bookkeeping can refuse), including several departures in one history. Oracle: every recv result's first frame equals the identity of the connection the tagged payload was written on (= attach's return value = announced bytes, pairwise distinct), remaining frames equal what was sent, in per-connection order; after send returns Ok exactly the target's wire grew by the reference encoding of frames[1..]; on Err no wire grew; absent / oversized / empty / departed targets fail. Non-trivial = >= 2 peers and a send to a non-first peer or an absent identity; distinct by case".into(),
+        rule: "proptest histories on a real ROUTER socket with 1..5 peers (raw DEALER/REQ/ROUTER with announced 1..255-byte or auto-assigned identities, or library DEALER/REQ sockets using SocketOptions::peer_identity over a pipe pair): peers write tagged messages, bytes are delivered in generated portions, the application interleaves recv with send([target, ...]) to every live identity, a never-seen identity, a 256-byte frame, an empty frame and the identity of a peer that was reset or closed in an orderly way (like on TCP, writes towards a closed peer still succeed, so only the socket's bookkeeping can refuse), including several departures in one history, and peers with a fixed identity that go away and come back under it before the socket has observed the departure (the identity then means the new connection; the replaced connection must not be written to). Oracle: every recv result's first frame equals the identity of the connection the tagged payload was written on (= attach's return value = announced bytes, pairwise distinct), remaining frames equal what was sent, in per-connection order; after send returns Ok exactly the target's wire grew by the reference encoding of frames[1..]; on Err no wire grew; absent / oversized / empty / departed targets fail. Non-trivial = >= 2 peers and a send to a non-first peer or an absent identity; distinct by case".into(),
         assumptions: vec![
             "a departed peer is asserted on only after the socket has observed its end (a recv consumed the EOF / error)".into(),
             "one-frame sends are outside the statement".into(),
